@@ -15,7 +15,7 @@ open PonyVerif.Model.Tracked PonyVerif.Gen.TrackedTable
     an object that has a row and whose bit is not set has the value of the database, the database holds plain JSON,
     the attribute's write bit is only set on a 'modified' object -/
 def Inv (s : St) : Prop :=
-  allW s.doc = true ∧ (s.status ≠ .created → s.dirty = false → s.db = ser s.doc) ∧ isPlain s.db = true
+  allW s.doc = true ∧ (s.status ≠ .created → s.status.alive = true → s.dirty = false → s.db = ser s.doc) ∧ isPlain s.db = true
     ∧ (s.dirty = true → s.status = .modified)
 
 /-- the decidable guard of the partial theorems in readable form: the values stored by the operation contain no tuples and
@@ -59,7 +59,7 @@ theorem assigned_allW (cfg : Cfg) (v : T) (hv : tupFree v = true ∨ rebindsAll 
 theorem C28_load_wrapped (cfg : Cfg) (v : T) (hv : isPlain v = true) (vol : Bool := false) : Inv (St.load cfg v vol) := by
   refine ⟨?_, ?_, hv, ?_⟩
   · exact make_allW_of_tupFree cfg v (isPlain_tupFree v hv)
-  · intro _ _; exact (ser_make cfg v hv).symm
+  · intro _ _ _; exact (ser_make cfg v hv).symm
   · intro h; cases h
 
 /-- a new object `E(attr=v)`: `validate` wraps the value (the object is 'created': no row, no write bits) -/
@@ -72,11 +72,12 @@ theorem C28_create_wrapped (cfg : Cfg) (v : T) (hv : tupFree v = true ∨ rebind
 
 /-- assignment `obj.attr = v` of any value without tuples (and of any value at all if `make` wraps tuples) -/
 theorem C28_assign_wrapped (cfg : Cfg) (s : St) (v : T) (hv : tupFree v = true ∨ rebindsAll cfg = true) :
-    allW (step cfg s (.assign v)).1.doc = true ∧ (s.status ≠ .created → (step cfg s (.assign v)).1.dirty = true) := by
-  have hd : (step cfg s (.assign v)).1.doc = assigned cfg v := by simp only [step, attrChanged]; split <;> rfl
+    s.status.alive = true → allW (step cfg s (.assign v)).1.doc = true ∧ (s.status ≠ .created → (step cfg s (.assign v)).1.dirty = true) := by
+  intro hal
+  have hd : (step cfg s (.assign v)).1.doc = assigned cfg v := by simp only [step, hal, if_true, attrChanged]; split <;> rfl
   refine ⟨?_, ?_⟩
   · rw [hd]; exact assigned_allW cfg v hv
-  · intro hs; simp [step, attrChanged, bitAll, hs]
+  · intro hs; simp [step, attrChanged, bitAll, hs, hal]
 
 /-! ### the guard -/
 
@@ -139,9 +140,11 @@ theorem C28_guard_wrapsAll (cfg : Cfg) (hw : cfg.wrapsAll = true) (op : Op) : op
 theorem attrChanged_doc (s : St) : (attrChanged s).doc = s.doc ∧ (attrChanged s).db = s.db := by
   unfold attrChanged; split <;> exact ⟨rfl, rfl⟩
 
-theorem notified_doc (s : St) (n : Bool) : (notified s n).doc = s.doc ∧ (notified s n).db = s.db := by
+theorem notified_doc (s : St) (n : Bool) (e : Option Err) : (notified s n e).1.doc = s.doc ∧ (notified s n e).1.db = s.db := by
   unfold notified; split
-  · exact attrChanged_doc s
+  · split
+    · exact attrChanged_doc s
+    · exact ⟨rfl, rfl⟩
   · exact ⟨rfl, rfl⟩
 
 /-- `_attr_changed_` keeps the invariant — also when the value has just been replaced by any wrapped value `d` -/
@@ -149,18 +152,39 @@ theorem attrChanged_inv (s : St) (d : T) (hd : allW d = true) (h : Inv s) : Inv 
   obtain ⟨_, _, h3, h4⟩ := h
   unfold attrChanged
   split
-  · exact ⟨hd, fun _ h => Bool.noConfusion h, h3, fun _ => rfl⟩
+  · exact ⟨hd, fun _ _ h => Bool.noConfusion h, h3, fun _ => rfl⟩
   · rename_i hc
     have hcr : s.status = .created := by simpa [bitAll] using hc
     exact ⟨hd, fun h => absurd hcr h, h3, h4⟩
 
-theorem doFlush_inv (s : St) (h : Inv s) : Inv (doFlush s) ∧ (doFlush s).db = ser (doFlush s).doc ∧ (doFlush s).dirty = false := by
+/-- the notification after a change to `d`: `_attr_changed_` for a live object, an exception (and nothing else) for a dead one -/
+theorem notified_inv (s : St) (d : T) (hd : allW d = true) (h : Inv s) (e : Option Err) : Inv (notified { s with doc := d } true e).1 := by
+  unfold notified
+  simp only [if_true]
+  split
+  · exact attrChanged_inv s d hd h
+  · rename_i hal
+    obtain ⟨_, _, h3, h4⟩ := h
+    exact ⟨hd, fun _ ha => absurd ha hal, h3, h4⟩
+
+theorem notified_inv_same (s : St) (h : Inv s) (n : Bool) (e : Option Err) : Inv (notified s n e).1 := by
+  cases n
+  · exact h
+  · have := notified_inv s s.doc h.1 h e
+    simpa using this
+
+theorem doFlush_alive (s : St) : (doFlush s).status.alive = s.status.alive ∧ (doFlush s).doc = s.doc := by
+  cases hs : s.status <;> simp [doFlush, hs, Status.alive]
+
+theorem doFlush_inv (s : St) (h : Inv s) :
+    Inv (doFlush s) ∧ ((doFlush s).status.alive = true → (doFlush s).db = ser (doFlush s).doc) ∧ (doFlush s).dirty = false := by
   obtain ⟨h1, h2, h3, h4⟩ := h
-  cases hs : s.status <;> cases hd : s.dirty <;> simp_all [doFlush, Inv, isPlain_ser]
+  cases hs : s.status <;> cases hd : s.dirty <;> simp_all [doFlush, Inv, isPlain_ser, Status.alive]
 
 /-- `Inv` (in particular Inv_wrapped) is preserved by EVERY operation whose stored arguments come out wrapped:
     any mutator of list / dict / array at any path with arbitrary such arguments, reads, assignment, a change of another
-    attribute, flush, reload — for objects of every status (created, loaded, inserted, updated, modified), volatile or not -/
+    attribute, flush, reload, end of the session, delete — for objects of every status (created, loaded, inserted, updated,
+    modified, deleted, session over), volatile or not -/
 theorem C28_inv_step (cfg : Cfg) (hc : cfg.covers = true) (s : St) (op : Op) (hs : Inv s) (ha : op.argsW cfg = true) :
     Inv (step cfg s op).1 := by
   have hs' := hs
@@ -172,39 +196,51 @@ theorem C28_inv_step (cfg : Cfg) (hc : cfg.covers = true) (s : St) (op : Op) (hs
       · rename_i d n hm
         have ha' : (m.prep cfg).args.all allW = true ∧ notifies cfg m = true := by simpa [Op.argsW] using ha
         have := modAt_sound (f := applyL cfg m) (fun t t' n ht h => applyL_sound hc ht ha'.1 ha'.2 h) p s.doc d n h1 hm
-        rw [this.2]; exact attrChanged_inv s d this.1 hs'
-      · rename_i e n hm
-        cases n
-        · exact hs'
-        · exact attrChanged_inv s s.doc h1 hs'
+        rw [this.2]; exact notified_inv s d this.1 hs' _
+      · exact notified_inv_same s hs' _ _
   | dmut p m =>
       simp only [step]
       split
       · rename_i d n hm
         have := modAt_sound (f := applyD cfg m) (fun t t' n ht h => applyD_sound hc ht (by simpa [Op.argsW] using ha) h) p s.doc d n h1 hm
-        rw [this.2]; exact attrChanged_inv s d this.1 hs'
-      · rename_i e n hm
-        cases n
-        · exact hs'
-        · exact attrChanged_inv s s.doc h1 hs'
+        rw [this.2]; exact notified_inv s d this.1 hs' _
+      · exact notified_inv_same s hs' _ _
   | read p => exact hs'
-  | touch => exact attrChanged_inv s s.doc h1 hs'
-  | assign v => exact attrChanged_inv s (assigned cfg v) (by simpa [Op.argsW] using ha) hs'
+  | touch => exact notified_inv_same s hs' true none
+  | assign v =>
+      simp only [step]
+      split
+      · exact attrChanged_inv s (assigned cfg v) (by simpa [Op.argsW] using ha) hs'
+      · exact hs'
   | other =>
       simp only [step]
       split
-      · rename_i hcr
-        have hcr' : s.status ≠ .created := by simpa using hcr
-        exact ⟨h1, fun _ => h2 hcr', h3, fun _ => rfl⟩
+      · rename_i hal
+        split
+        · rename_i hcr
+          have hcr' : s.status ≠ .created := by simpa using hcr
+          exact ⟨h1, fun _ _ => h2 hcr' hal, h3, fun _ => rfl⟩
+        · exact hs'
       · exact hs'
   | flush => exact (doFlush_inv s hs').1
+  | endSession =>
+      simp only [step]
+      split
+      · have hf := (doFlush_inv s hs')
+        exact ⟨hf.1.1, fun _ h => by simp [Status.alive] at h, hf.1.2.2.1, fun h => by simp [hf.2.2] at h⟩
+      · exact hs'
+  | delete =>
+      simp only [step]
+      split
+      · exact ⟨h1, fun _ h => by simp [Status.alive] at h, h3, fun h => by simp at h⟩
+      · exact hs'
   | refresh v =>
       simp only [step]
       split
       · rename_i hv
         simp only [Bool.and_eq_true, Bool.not_eq_true', bne_iff_ne, ne_eq] at hv
-        obtain ⟨⟨⟨⟨_, hd⟩, _⟩, hp⟩, _⟩ := hv
-        refine ⟨make_allW_of_tupFree cfg v (isPlain_tupFree v hp), fun _ _ => (ser_make cfg v hp).symm, hp, ?_⟩
+        obtain ⟨⟨⟨⟨⟨_, hd⟩, _⟩, _⟩, hp⟩, _⟩ := hv
+        refine ⟨make_allW_of_tupFree cfg v (isPlain_tupFree v hp), fun _ _ _ => (ser_make cfg v hp).symm, hp, ?_⟩
         intro h; simp [hd] at h
       · exact hs'
   | reload v =>
@@ -223,7 +259,7 @@ theorem C28_wrapped_preserved (cfg : Cfg) (hc : cfg.covers = true) (s : St) (op 
     or not — `_attr_changed_` looks the bit up in `_bits_`) every mutating method of list / array, applied at ANY depth with
     ANY arguments, that returns without an exception sets the attribute's write bit and makes the object 'modified' -/
 theorem C28_dirty_list (cfg : Cfg) (hc : cfg.covers = true) (s : St) (hs : allW s.doc = true) (p : List Step) (m : LMut)
-    (hcr : s.status ≠ .created) (hok : (step cfg s (.lmut p m)).2 = none) :
+    (hcr : s.status ≠ .created) (hal : s.status.alive = true) (hok : (step cfg s (.lmut p m)).2 = none) :
     (step cfg s (.lmut p m)).1.dirty = true ∧ (step cfg s (.lmut p m)).1.status = .modified := by
   simp only [step] at hok ⊢
   split
@@ -231,20 +267,20 @@ theorem C28_dirty_list (cfg : Cfg) (hc : cfg.covers = true) (s : St) (hs : allW 
     have hr : notifies cfg m = true := by
       cases hmr : m.raises
       · simp [notifies, hmr]
-      · simp [hm, hmr] at hok
+      · cases n <;> simp [hm, hmr, notified, hal] at hok
     have := modAt_notifies (f := applyL cfg m) (fun t t' n ht h => applyL_notifies hc ht hr h) p s.doc d n hs hm
-    simp [this, notified, attrChanged, bitAll, hcr]
-  · rename_i e hm; simp [hm] at hok
+    simp [this, notified, attrChanged, bitAll, hcr, hal]
+  · rename_i e n hm; cases n <;> simp [hm, notified, hal] at hok
 
 theorem C28_dirty_dict (cfg : Cfg) (hc : cfg.covers = true) (s : St) (hs : allW s.doc = true) (p : List Step) (m : DMut)
-    (hcr : s.status ≠ .created) (hok : (step cfg s (.dmut p m)).2 = none) :
+    (hcr : s.status ≠ .created) (hal : s.status.alive = true) (hok : (step cfg s (.dmut p m)).2 = none) :
     (step cfg s (.dmut p m)).1.dirty = true ∧ (step cfg s (.dmut p m)).1.status = .modified := by
   simp only [step] at hok ⊢
   split
   · rename_i d n hm
     have := modAt_notifies (f := applyD cfg m) (fun t t' n ht h => applyD_notifies hc ht h) p s.doc d n hs hm
-    simp [this, notified, attrChanged, bitAll, hcr]
-  · rename_i e hm; simp [hm] at hok
+    simp [this, notified, attrChanged, bitAll, hcr, hal]
+  · rename_i e n hm; cases n <;> simp [hm, notified, hal] at hok
 
 /-- `_attr_changed_` sets the write bit of EVERY attribute that has a column, a volatile one as well: the bit is looked up in
     `_bits_`; `_bits_except_volatile_` (zero for a volatile attribute) is for the read bits of `Attribute.__get__` only -/
@@ -256,10 +292,10 @@ example : bitExceptVolatile (St.load table (.atom .null) true) = false ∧ bitAl
 
 /-- a change of another attribute makes the object 'modified' without setting this attribute's bit: the next UPDATE leaves
     the column alone, a later in-place change sets the bit again -/
-theorem C28_other_then_change (cfg : Cfg) (s : St) (h : s.status ≠ .created) :
+theorem C28_other_then_change (cfg : Cfg) (s : St) (h : s.status ≠ .created) (hal : s.status.alive = true) :
     (step cfg s .other).1.dirty = s.dirty ∧ (step cfg s .other).1.status = .modified
       ∧ (attrChanged (doFlush (step cfg s .other).1)).dirty = true := by
-  simp [step, h, doFlush, attrChanged, bitAll]
+  simp [step, h, hal, doFlush, attrChanged, bitAll]
 
 /-- a method that is NOT overridden changes the value without telling anybody (why the coverage table matters) -/
 theorem C28_uncovered_silent (cfg : Cfg) (w : Bool) (xs : Items) (m : LMut) (h : cfg.listOv.contains m.meth = false)
@@ -274,16 +310,16 @@ theorem C28_read_clean (cfg : Cfg) (s : St) (p : List Step) : (step cfg s (.read
 
 /-- a mutator that raises before it changes anything leaves the value and the database as they were -/
 theorem C28_error_unchanged (cfg : Cfg) (s : St) (p : List Step) (m : LMut) (e : Err) (hm : m.raises = false)
-    (h : (step cfg s (.lmut p m)).2 = some e) :
+    (hal : s.status.alive = true) (h : (step cfg s (.lmut p m)).2 = some e) :
     (step cfg s (.lmut p m)).1.doc = s.doc ∧ (step cfg s (.lmut p m)).1.db = s.db := by
   simp only [step] at h ⊢
   split
-  · rename_i hm'; simp [hm', hm] at h
-  · exact notified_doc s _
+  · rename_i d n hm'; cases n <;> simp [hm', hm, notified, hal] at h
+  · exact notified_doc s _ _
 
 /-- the observation point of the property: when the session ends and a new session reads the value (`v` = what the database
     returns), `v` is the value the old session saw (as JSON, up to the order of object keys) and it is fully wrapped again -/
-theorem C28_new_session (cfg : Cfg) (s : St) (hs : Inv s) (v : T) (hok : (step cfg s (.reload v)).2 = none) :
+theorem C28_new_session (cfg : Cfg) (s : St) (hs : Inv s) (hal : s.status.alive = true) (v : T) (hok : (step cfg s (.reload v)).2 = none) :
     sameJson v (ser s.doc) = true ∧ (step cfg s (.reload v)).1.doc = make cfg v ∧ Inv (step cfg s (.reload v)).1 := by
   have hf := doFlush_inv s hs
   have hdoc : (doFlush s).doc = s.doc := by unfold doFlush; split <;> rfl
@@ -292,8 +328,39 @@ theorem C28_new_session (cfg : Cfg) (s : St) (hs : Inv s) (v : T) (hok : (step c
   · rename_i hv
     simp only [Bool.and_eq_true] at hv
     refine ⟨?_, rfl, C28_load_wrapped cfg v hv.1 s.volatile⟩
-    rw [← hdoc, ← hf.2.1]; exact hv.2
+    rw [← hdoc, ← hf.2.1 (by rw [(doFlush_alive s).1]; exact hal)]; exact hv.2
   · rename_i hv; simp [hv] at hok
+
+/-! ### objects whose session is over, deleted objects (the error branches of `_attr_changed_` / `__set__`) -/
+
+/-- a wrapper outlives its session: a mutator called on it still changes the value IN MEMORY, `_attr_changed_` then raises
+    DatabaseSessionIsOver (OperationWithDeletedObjectError for a deleted object); nothing is marked, nothing is written -/
+theorem C28_dead_raises (cfg : Cfg) (s : St) (hd : s.status.alive = false) (p : List Step) (m : LMut) (d : T)
+    (hm : modAt (applyL cfg m) p s.doc = .ok (d, true)) :
+    (step cfg s (.lmut p m)).2 = some (deadErr s) ∧ (step cfg s (.lmut p m)).1.doc = d
+      ∧ (step cfg s (.lmut p m)).1.db = s.db ∧ (step cfg s (.lmut p m)).1.dirty = s.dirty ∧ (step cfg s (.lmut p m)).1.status = s.status := by
+  simp [step, hm, notified, hd, deadErr]
+
+/-- once the session is over no operation short of reading the object again in a new session changes what the database holds -/
+theorem C28_dead_nothing_written (cfg : Cfg) (s : St) (hd : s.status = .over) (op : Op) (hop : ∀ v, op ≠ .reload v) :
+    (step cfg s op).1.db = s.db ∧ (step cfg s op).1.status = .over := by
+  cases op with
+  | lmut p m =>
+      simp only [step]
+      split <;> (rename_i x n _; cases n <;> simp [notified, hd, Status.alive])
+  | dmut p m =>
+      simp only [step]
+      split <;> (rename_i x n _; cases n <;> simp [notified, hd, Status.alive])
+  | reload v => exact absurd rfl (hop v)
+  | _ => simp [step, notified, hd, Status.alive, doFlush]
+
+/-- ending the session commits: what the database holds is the value the program still sees through its wrappers -/
+theorem C28_end_session (cfg : Cfg) (s : St) (hs : Inv s) (hal : s.status.alive = true) :
+    (step cfg s .endSession).1.db = ser (step cfg s .endSession).1.doc ∧ (step cfg s .endSession).1.status = .over := by
+  have hf := doFlush_inv s hs
+  have ha := doFlush_alive s
+  simp only [step, hal, if_true]
+  exact ⟨hf.2.1 (by rw [ha.1]; exact hal), trivial⟩
 
 /-! ### arbitrary operation sequences -/
 
@@ -306,16 +373,19 @@ theorem C28_inv_run (cfg : Cfg) (hc : cfg.covers = true) (ops : List Op) :
       exact ih _ (C28_inv_step cfg hc s op hs (ha op (by simp))) (fun o ho => ha o (by simp [ho]))
 
 /-- the full statement for a given table: whatever document was loaded into a plain or a volatile attribute and whatever is
-    done to it, what the database holds after the commit is the value the session sees -/
+    done to it, what the database holds after the commit is the value the session sees (for an object that is still there: not
+    deleted, its session not over — then nothing is written any more, see `C28_dead_nothing_written`) -/
 def Full (cfg : Cfg) : Prop :=
   ∀ (v : T) (vol : Bool), isPlain v = true → ∀ ops : List Op,
+    (run cfg (ops ++ [.flush]) (St.load cfg v vol)).status.alive = true →
     (run cfg (ops ++ [.flush]) (St.load cfg v vol)).db = ser (run cfg (ops ++ [.flush]) (St.load cfg v vol)).doc
 
 /-- `C28_persist` (partial: guard `argsW`): for every table that covers the mutators, every start state satisfying the
     invariant, every sequence of operations whose stored arguments come out wrapped -/
 theorem C28_persist (cfg : Cfg) (hc : cfg.covers = true) (s0 : St) (h0 : Inv s0) (ops : List Op)
     (ha : ∀ op ∈ ops, op.argsW cfg = true) :
-    (run cfg (ops ++ [.flush]) s0).db = ser (run cfg (ops ++ [.flush]) s0).doc ∧ (run cfg (ops ++ [.flush]) s0).dirty = false := by
+    ((run cfg (ops ++ [.flush]) s0).status.alive = true → (run cfg (ops ++ [.flush]) s0).db = ser (run cfg (ops ++ [.flush]) s0).doc)
+      ∧ (run cfg (ops ++ [.flush]) s0).dirty = false := by
   rw [run_append]
   have hi := C28_inv_run cfg hc ops s0 h0 ha
   exact (doFlush_inv _ hi).2
@@ -323,13 +393,18 @@ theorem C28_persist (cfg : Cfg) (hc : cfg.covers = true) (s0 : St) (h0 : Inv s0)
 /-- ordinary JSON (dict / list / scalars handed in directly, in lists, dicts or keyword arguments): persisted, for the
     table generated from the current source -/
 theorem C28_persist_json_current (v : T) (hv : isPlain v = true) (vol : Bool) (ops : List Op) (ha : ∀ op ∈ ops, jsonOK table op = true) :
+    (run table (ops ++ [.flush]) (St.load table v vol)).status.alive = true →
     (run table (ops ++ [.flush]) (St.load table v vol)).db = ser (run table (ops ++ [.flush]) (St.load table v vol)).doc :=
   (C28_persist table (by decide) _ (C28_load_wrapped table v hv vol) ops (fun op ho => C28_guard_json table op (ha op ho))).1
 
-/-- the same for an object created in this session (no row, no write bits until the first flush) -/
+/-- what the current source does with a wrapper of another object / attribute that is handed in: `make` and `validate` re-bind it
+    (probed on the real classes and on a real entity; breaks the build when either keeps the foreign wrapper) -/
 theorem C28_rebinds_current : table.rebinds = true ∧ table.assignRebinds = true := by decide
 
+/-- the same for an object created in this session (no row, no write bits until the first flush) -/
+
 theorem C28_persist_created_json_current (v : T) (hv : tupFree v = true) (vol : Bool) (ops : List Op) (ha : ∀ op ∈ ops, jsonOK table op = true) :
+    (run table (ops ++ [.flush]) (St.create table v vol)).status.alive = true →
     (run table (ops ++ [.flush]) (St.create table v vol)).db = ser (run table (ops ++ [.flush]) (St.create table v vol)).doc :=
   (C28_persist table (by decide) _ (C28_create_wrapped table v (.inl hv) vol) ops (fun op ho => C28_guard_json table op (ha op ho))).1
 
@@ -342,12 +417,13 @@ theorem C28_cover_current : table.covers = true := by decide
 theorem C28_notify_on_error_current : table.notifyOnError = true := by decide
 
 /-- … hence, for the current source, a sort that raises after it has reordered the list at any depth still marks the object -/
-theorem C28_partial_change_dirty_current (s : St) (hs : allW s.doc = true) (hcr : s.status ≠ .created) (p : List Step) (perm : List Nat)
+theorem C28_partial_change_dirty_current (s : St) (hs : allW s.doc = true) (hcr : s.status ≠ .created) (hal : s.status.alive = true)
+    (p : List Step) (perm : List Nat)
     (d : T) (n : Bool) (hm : modAt (applyL table (.sortRaise perm)) p s.doc = .ok (d, n)) :
     (step table s (.lmut p (.sortRaise perm))).1.dirty = true ∧ (step table s (.lmut p (.sortRaise perm))).1.doc = d := by
   have hr : notifies table (.sortRaise perm) = true := by simp [notifies, C28_notify_on_error_current]
   have := modAt_notifies (f := applyL table (.sortRaise perm)) (fun t t' n ht h => applyL_notifies C28_cover_current ht hr h) p s.doc d n hs hm
-  simp only [step, hm, this, notified]
+  simp only [step, hm, this, notified, hal, if_true]
   exact ⟨by simp [attrChanged, bitAll, hcr], (attrChanged_doc _).1⟩
 
 /-- the cross-check table: every overridden mutator was also observed to notify -/
@@ -392,7 +468,7 @@ theorem C28_lost_extend (cfg : Cfg) (hc : cfg.covers = true) (k : IterKind) (hu 
   have h := hF v0 false (by decide) (witnessL .extend k)
   have h1 : LM.extend ∈ cfg.listOv := by simpa using Cfg.covers_list hc .extend
   have h2 : LM.append ∈ cfg.listOv := by simpa using Cfg.covers_list hc .append
-  simp [witnessL, run, step, notified, attrChanged, bitAll, notifies, LMut.raises, Kind.isMap, St.load, v0, elemE, one, make, makeL, modAt, locate, normIdx, applyL, lEffect, LMut.prep, LMut.meth, makeVals,
+  simp [witnessL, run, step, notified, attrChanged, bitAll, notifies, LMut.raises, Kind.isMap, Status.alive, St.load, v0, elemE, one, make, makeL, modAt, locate, normIdx, applyL, lEffect, LMut.prep, LMut.meth, makeVals,
     doFlush, ser, serL, Kind.ser, h1, h2, hu, li, List.findIdx?_cons] at h
 
 theorem C28_lost_iadd (cfg : Cfg) (hc : cfg.covers = true) (k : IterKind) (hu : cfg.wraps .iadd k = false) : ¬ Full cfg := by
@@ -400,7 +476,7 @@ theorem C28_lost_iadd (cfg : Cfg) (hc : cfg.covers = true) (k : IterKind) (hu : 
   have h := hF v0 false (by decide) (witnessL .iadd k)
   have h1 : LM.iadd ∈ cfg.listOv := by simpa using Cfg.covers_list hc .iadd
   have h2 : LM.append ∈ cfg.listOv := by simpa using Cfg.covers_list hc .append
-  simp [witnessL, run, step, notified, attrChanged, bitAll, notifies, LMut.raises, Kind.isMap, St.load, v0, elemE, one, make, makeL, modAt, locate, normIdx, applyL, lEffect, LMut.prep, LMut.meth, makeVals,
+  simp [witnessL, run, step, notified, attrChanged, bitAll, notifies, LMut.raises, Kind.isMap, Status.alive, St.load, v0, elemE, one, make, makeL, modAt, locate, normIdx, applyL, lEffect, LMut.prep, LMut.meth, makeVals,
     doFlush, ser, serL, Kind.ser, h1, h2, hu, li, List.findIdx?_cons] at h
 
 theorem C28_lost_setslice (cfg : Cfg) (hc : cfg.covers = true) (k : IterKind) (hu : cfg.wraps .setslice k = false) : ¬ Full cfg := by
@@ -408,7 +484,7 @@ theorem C28_lost_setslice (cfg : Cfg) (hc : cfg.covers = true) (k : IterKind) (h
   have h := hF v0 false (by decide) (witnessL (.setslice none none) k)
   have h1 : LM.setitem ∈ cfg.listOv := by simpa using Cfg.covers_list hc .setitem
   have h2 : LM.append ∈ cfg.listOv := by simpa using Cfg.covers_list hc .append
-  simp [witnessL, run, step, notified, attrChanged, bitAll, notifies, LMut.raises, Kind.isMap, St.load, v0, elemE, one, make, makeL, modAt, locate, normIdx, applyL, lEffect, LMut.prep, LMut.meth, makeVals,
+  simp [witnessL, run, step, notified, attrChanged, bitAll, notifies, LMut.raises, Kind.isMap, Status.alive, St.load, v0, elemE, one, make, makeL, modAt, locate, normIdx, applyL, lEffect, LMut.prep, LMut.meth, makeVals,
     sliceBounds, doFlush, ser, serL, Kind.ser, h1, h2, hu, li, List.findIdx?_cons] at h
 
 theorem C28_lost_update (cfg : Cfg) (hc : cfg.covers = true) (k : IterKind) (hu : cfg.wraps .update k = false) : ¬ Full cfg := by
@@ -416,7 +492,7 @@ theorem C28_lost_update (cfg : Cfg) (hc : cfg.covers = true) (k : IterKind) (hu 
   have h := hF v0 false (by decide) (witnessD (fun k ps => .update k ps []) k)
   have h1 : DM.update ∈ cfg.dictOv := by simpa using Cfg.covers_dict hc .update
   have h2 : LM.append ∈ cfg.listOv := by simpa using Cfg.covers_list hc .append
-  simp [witnessD, run, step, notified, attrChanged, bitAll, notifies, LMut.raises, Kind.isMap, St.load, v0, elemE, one, make, makeL, modAt, locate, normIdx, applyL, applyD, lEffect, dEffect, dSetAll, dSet,
+  simp [witnessD, run, step, notified, attrChanged, bitAll, notifies, LMut.raises, Kind.isMap, Status.alive, St.load, v0, elemE, one, make, makeL, modAt, locate, normIdx, applyL, applyD, lEffect, dEffect, dSetAll, dSet,
     LMut.meth, DMut.prep, DMut.meth, makePairs, doFlush, ser, serL, Kind.ser, h1, h2, hu, li, List.findIdx?_cons] at h
 
 theorem C28_lost_ior (cfg : Cfg) (hc : cfg.covers = true) (k : IterKind) (hu : cfg.wraps .ior k = false) : ¬ Full cfg := by
@@ -424,7 +500,7 @@ theorem C28_lost_ior (cfg : Cfg) (hc : cfg.covers = true) (k : IterKind) (hu : c
   have h := hF v0 false (by decide) (witnessD .ior k)
   have h1 : DM.ior ∈ cfg.dictOv := by simpa using Cfg.covers_dict hc .ior
   have h2 : LM.append ∈ cfg.listOv := by simpa using Cfg.covers_list hc .append
-  simp [witnessD, run, step, notified, attrChanged, bitAll, notifies, LMut.raises, Kind.isMap, St.load, v0, elemE, one, make, makeL, modAt, locate, normIdx, applyL, applyD, lEffect, dEffect, dSetAll, dSet,
+  simp [witnessD, run, step, notified, attrChanged, bitAll, notifies, LMut.raises, Kind.isMap, Status.alive, St.load, v0, elemE, one, make, makeL, modAt, locate, normIdx, applyL, applyD, lEffect, dEffect, dSetAll, dSet,
     LMut.meth, DMut.prep, DMut.meth, makePairs, doFlush, ser, serL, Kind.ser, h1, h2, hu, li, List.findIdx?_cons] at h
 
 theorem C28_lost_tuple (cfg : Cfg) (hc : cfg.covers = true) (hu : cfg.makeTuple = false) : ¬ Full cfg := by
@@ -432,7 +508,7 @@ theorem C28_lost_tuple (cfg : Cfg) (hc : cfg.covers = true) (hu : cfg.makeTuple 
   have h := hF v0 false (by decide) witnessT
   have h2 : LM.append ∈ cfg.listOv := by simpa using Cfg.covers_list hc .append
   have hm : cfg.tupleMode = .leave := by simpa [Cfg.makeTuple] using hu
-  simp [witnessT, run, step, notified, attrChanged, bitAll, notifies, LMut.raises, Kind.isMap, St.load, v0, one, make, makeL, modAt, locate, normIdx, applyL, lEffect, LMut.prep, LMut.meth,
+  simp [witnessT, run, step, notified, attrChanged, bitAll, notifies, LMut.raises, Kind.isMap, Status.alive, St.load, v0, one, make, makeL, modAt, locate, normIdx, applyL, lEffect, LMut.prep, LMut.meth,
     doFlush, ser, serL, Kind.ser, h2, hm, li] at h
 
 /-- `x = obj.data; x.sort()` raising after it has exchanged the two items -/
@@ -443,7 +519,7 @@ theorem C28_lost_partial (cfg : Cfg) (hc : cfg.covers = true) (hu : cfg.notifyOn
   intro hF
   have h := hF v0 false (by decide) witnessP
   have h1 : LM.sort ∈ cfg.listOv := by simpa using Cfg.covers_list hc .sort
-  simp [witnessP, run, step, notified, attrChanged, bitAll, notifies, LMut.raises, Kind.isMap, St.load, v0, make, makeL, modAt, applyL, lEffect,
+  simp [witnessP, run, step, notified, attrChanged, bitAll, notifies, LMut.raises, Kind.isMap, Status.alive, St.load, v0, make, makeL, modAt, applyL, lEffect,
     LMut.prep, LMut.meth, doFlush, ser, serL, Kind.ser, h1, hu] at h
 
 /-- a list that belongs to another object -/
@@ -459,13 +535,13 @@ theorem C28_lost_foreign_arg (cfg : Cfg) (hc : cfg.covers = true) (hu : cfg.rebi
   intro hF
   have h := hF v0 false (by decide) witnessF
   have h2 : LM.append ∈ cfg.listOv := by simpa using Cfg.covers_list hc .append
-  simp [witnessF, foreignL, run, step, notified, attrChanged, bitAll, notifies, LMut.raises, Kind.isMap, St.load, v0, one, make, makeL, makeF, modAt,
+  simp [witnessF, foreignL, run, step, notified, attrChanged, bitAll, notifies, LMut.raises, Kind.isMap, Status.alive, St.load, v0, one, make, makeL, makeF, modAt,
     locate, normIdx, applyL, lEffect, LMut.prep, LMut.prepF, LMut.meth, doFlush, ser, serL, Kind.ser, h2, hu, li] at h
 
 theorem C28_lost_foreign_assign (cfg : Cfg) (hu : cfg.assignRebinds = false) : ¬ Full cfg := by
   intro hF
   have h := hF v0 false (by decide) witnessA
-  simp [witnessA, foreignL, run, step, notified, attrChanged, bitAll, assigned, St.load, v0, one, make, makeL, makeF, modAt,
+  simp [witnessA, foreignL, run, step, notified, attrChanged, bitAll, assigned, Status.alive, St.load, v0, one, make, makeL, makeF, modAt,
     applyL, lEffect, LMut.prepF, doFlush, ser, serL, Kind.ser, hu, li] at h
 
 /-- `C28_full_iff`: for a table that covers the mutators, the full statement (every change made in place, through any
@@ -515,6 +591,11 @@ def cfgUnwrapped : Cfg := {
   notifyOnError := false }
 
 example : cfgUnwrapped.covers = true ∧ cfgUnwrapped.wrapsAll = false := by decide
+-- the change made through a wrapper after the end of the session stays in memory and raises
+example : (step cfgUnwrapped (step cfgUnwrapped (St.load cfgUnwrapped v0) .endSession).1 (.lmut [.idx 0] (.append one))).2 = some .session := by decide
+example : (step cfgUnwrapped (step cfgUnwrapped (St.load cfgUnwrapped v0) .delete).1 (.lmut [.idx 0] (.append one))).2 = some .deleted := by decide
+
+
 -- extended slices: `x[::2] = [[], []]` on a 3-item list stores two wrapped lists; `del x[::-2]` keeps the middle item
 example : (lEffect (.setsliceStep none none 2 .list [.atom .null, .atom .null]) [li one, li one, li one]).toOption
     = some [li (.atom .null), li one, li (.atom .null)] := by rfl
